@@ -131,13 +131,27 @@ for _k in range(0, _N + 1):       # occ_k(i): position i is taken by one of the 
 for _s in range(_N):
     _defs['first%d' % _s] = ([], ' and '.join(['True'] + ['not (p%d and q%d == q%d)' % (u, u, _s) for u in range(_s)]))
 _defs['distinct'] = ([], ' and '.join('implies(p%d and p%d, q%d != q%d)' % (s, u, s, u) for s in range(_N) for u in range(s + 1, _N)))
+# abstract counting chain: c0 = 0, c_{k+1} = c_k + [b_k]  ==>  c_N = sum [b_k]
+LEMMAS['C16/chain'] = dict(
+    vars=dict([('c%d' % k, 'int') for k in range(_N + 1)] + [('b%d' % k, 'bool') for k in range(_N)]),
+    hyps=['c0 == 0'] + ['c%d == c%d + ite(b%d, 1, 0)' % (k + 1, k, k) for k in range(_N)],
+    goals=[('telescoped', 'c%d == ' % _N + _sum('b%d' % k for k in range(_N)))])
+# abstract: fewer "first" requests than requests  <=>  some request is not first
+LEMMAS['C16/all-first'] = dict(
+    vars=dict([('p%d' % k, 'bool') for k in range(_N)] + [('f%d' % k, 'bool') for k in range(_N)]),
+    hyps=[],
+    goals=[('count-equal-iff-all-first', '(' + _sum('p%d and f%d' % (k, k) for k in range(_N)) + ' == ' + _sum('p%d' % k for k in range(_N)) + ') == (' +
+            ' and '.join('implies(p%d, f%d)' % (k, k) for k in range(_N)) + ')')])
 LEMMAS['C16/pigeonhole'] = dict(
     vars=dict([('p%d' % s, 'bool') for s in range(_N)] + [('q%d' % s, 'int') for s in range(_N)]),
     defs=_defs,
     hyps=['implies(p%d, 1 <= q%d and q%d <= %d)' % (s, s, s, _N) for s in range(_N)],
     uses=[('C16/occupy-step', dict([('o%d' % i, 'occ%d(%d)' % (k, i)) for i in range(1, _N + 1)] + [('p', 'p%d' % k), ('q', 'q%d' % k)]))
-          for k in range(_N)],
-    goals=[('stage%d' % (k + 1), 'cnt%d() == cnt%d() + ite(p%d and first%d(), 1, 0)' % (k + 1, k, k, k), 'then-assume') for k in range(_N)] +
-          [('occupied-count', 'cnt%d() == ' % _N + _sum('p%d and first%d()' % (s, s) for s in range(_N)), 'then-assume'),
+          for k in range(_N)] +
+         # the stage equalities cnt_{k+1} = cnt_k + [p_k and first_k] are the hypotheses of the abstract chain (each one a small VC)
+         [('C16/chain', dict([('c%d' % k, 'cnt%d()' % k) for k in range(_N + 1)] + [('b%d' % k, 'p%d and first%d()' % (k, k)) for k in range(_N)])),
+          ('C16/all-first', dict([('p%d' % k, 'p%d' % k) for k in range(_N)] + [('f%d' % k, 'first%d()' % k) for k in range(_N)]))],
+    goals=[('distinct-iff-all-first', 'distinct() == (' + ' and '.join('implies(p%d, first%d())' % (k, k) for k in range(_N)) + ')', 'then-assume'),
            ('fewer-occupied-than-requested-iff-shared-position',
-            '(cnt%d() == ' % _N + _sum('p%d' % s for s in range(_N)) + ') == distinct()')])
+            '(cnt%d() == ' % _N + _sum('p%d' % s for s in range(_N)) + ') == distinct()', None,
+            ['C16/chain/telescoped', 'C16/all-first/count-equal-iff-all-first', 'distinct-iff-all-first'])])
